@@ -215,11 +215,15 @@ impl<'a, const BITS: usize, const LIMBS: usize> FromSql<'a> for Uint<BITS, LIMBS
                 }
                 let len: usize = i32::from_be_bytes(raw[..4].try_into()?).try_into()?;
                 let raw = &raw[4..];
+                if raw.len() != (len + 7) / 8 {
+                    // Truncated or overlong data for the bit length in the header.
+                    return Err(Box::new(FromSqlError::ParseError(ty.clone())));
+                }
 
                 // Shift padding to the other end
                 let padding = 8 - rem_up(len, 8);
                 let mut raw = raw.to_owned();
-                if padding > 0 {
+                if padding > 0 && !raw.is_empty() {
                     for i in (1..raw.len()).rev() {
                         raw[i] = (raw[i] >> padding) | (raw[i - 1] << (8 - padding));
                     }
@@ -235,7 +239,7 @@ impl<'a, const BITS: usize, const LIMBS: usize> FromSql<'a> for Uint<BITS, LIMBS
             // Hex strings
             Type::JSON | Type::JSONB => {
                 let raw = if *ty == Type::JSONB {
-                    if raw[0] == 1 {
+                    if raw.first() == Some(&1) {
                         &raw[1..]
                     } else {
                         // Unsupported version
@@ -245,7 +249,7 @@ impl<'a, const BITS: usize, const LIMBS: usize> FromSql<'a> for Uint<BITS, LIMBS
                     raw
                 };
                 let str = from_utf8(raw)?;
-                let str = if str.starts_with('"') && str.ends_with('"') {
+                let str = if str.len() >= 2 && str.starts_with('"') && str.ends_with('"') {
                     // Stringified number
                     &str[1..str.len() - 1]
                 } else {
@@ -260,8 +264,9 @@ impl<'a, const BITS: usize, const LIMBS: usize> FromSql<'a> for Uint<BITS, LIMBS
                 if raw.len() < 8 {
                     return Err(Box::new(FromSqlError::ParseError(ty.clone())));
                 }
-                let digits = i16::from_be_bytes(raw[0..2].try_into()?);
-                let exponent = i16::from_be_bytes(raw[2..4].try_into()?);
+                // Widen so that `exponent + 1` can not overflow.
+                let digits = i32::from(i16::from_be_bytes(raw[0..2].try_into()?));
+                let exponent = i32::from(i16::from_be_bytes(raw[2..4].try_into()?));
                 let sign = i16::from_be_bytes(raw[4..6].try_into()?);
                 let dscale = i16::from_be_bytes(raw[6..8].try_into()?);
                 let raw = &raw[8..];
